@@ -23,15 +23,15 @@ Theorem C14_batch_size_irrelevant (Name I O : Type) (name_eqb : Name -> Name -> 
 Proof. intros Heq. exact (reconstruct_with_sampler Name I O name_eqb Heq f vsize bs vols). Qed.
 Print Assumptions C14_batch_size_irrelevant.
 
-(* the loop body as it stands in the source (buffer of volume_size slots, slice assignment, yield when the counter reaches
+(* the loop body regenerated from the source (buffer of volume_size slots, slice assignment, yield when the counter reaches
    the volume size) yields, for the same batches, exactly the volumes of the state machine, as completely filled buffers *)
 Theorem C14_source_loop_refines_state_machine (Name I Out : Type) (name_eqb : Name -> Name -> bool) (f : I -> Out) (vsize : Name -> nat)
   (batches : list (Name * list I)) (ys : list (Name * list Out)) :
   (forall a b, name_eqb a b = true <-> a = b) ->
   reconstruct Name I Out name_eqb f vsize batches = Some ys ->
-  option_map snd (zrun Name Out name_eqb vsize gen_body (zst0 Name Out) (map (fun b => (fst b, map f (snd b))) batches))
+  option_map snd (zrun_f Name Out name_eqb vsize 3 gen_body (zst0 Name Out) (map (fun b => (fst b, map f (snd b))) batches))
   = Some (map (fun y => (fst y, map Some (snd y))) ys).
-Proof. intros Heq H. rewrite gen_body_tie. exact (reconstruct_refines Name I Out name_eqb Heq f vsize batches ys H). Qed.
+Proof. intros Heq H. rewrite (zrun_f_ext Name Out name_eqb vsize 3 gen_body (gen_body_tie Name Out name_eqb vsize Heq)). exact (reconstruct_refines Name I Out name_eqb Heq f vsize batches ys H). Qed.
 Print Assumptions C14_source_loop_refines_state_machine.
 
 Local Open Scope nat_scope.
